@@ -256,6 +256,33 @@ def run(rep, tier, seed):
                     rep.add("C08|guards|half-open-range", f"{b.name} tests membership in a half-open range; tag ranges are "
                             f"inclusive at both ends", AN + ":" + b.name)
 
+    # neighbour-only comparisons: a check that walks `xs.windows(2)` compares adjacent elements only, so it covers all
+    # pairs (overlaps, duplicates, gaps) only if `xs` was sorted by the compared key before, in the same function
+    n_win = 0
+    for k, f in fns.items():
+        for w in synq.method_calls(f, "windows"):
+            recv = w["recv"]
+            while recv.get("k") in ("Ref", "Paren") or (recv.get("k") == "MethodCall" and recv["method"] in ("iter", "as_slice")):
+                recv = recv.get("e") or recv.get("recv")
+            if recv.get("k") != "Path":
+                continue
+            var = recv["path"]["s"]
+            n_win += 1
+            n["rules"] += 1
+            pos = (w.get("l", 0), w.get("c", 0))
+            sorts = [m for m in synq.find_all(f, lambda x: x.get("k") == "MethodCall" and x["method"].startswith("sort"))
+                     if m["recv"].get("k") == "Path" and m["recv"]["path"]["s"] == var and (m.get("l", 0), m.get("c", 0)) < pos]
+            grows = [m for m in synq.find_all(f, lambda x: x.get("k") == "MethodCall" and x["method"] in ("push", "insert", "extend"))
+                     if m["recv"].get("k") == "Path" and m["recv"]["path"]["s"] == var
+                     and sorts and (sorts[-1].get("l", 0), sorts[-1].get("c", 0)) < (m.get("l", 0), m.get("c", 0)) < pos]
+            if not sorts or grows:
+                rep.add(f"C08|neighbour-comparison-unsorted|{k}", f"{k} compares neighbours of `{var}` (`{var}.windows(..)`) without "
+                        f"sorting it first: pairs that are not adjacent in declaration order are never compared", AN + ":" + k)
+    samples.append({"rule": "neighbour comparisons over sorted collections", "sites": n_win})
+    if n_win < 1:
+        rep.add("C08|floor|neighbour-comparisons", "no `windows(..)` comparison found in analyzer.rs (floor 1: the enum range "
+                "overlap check)", AN)
+
     # (f) duplicate constraints vs all ancestors
     dc = fns.get("check_decl_constraints")
     if dc is None:
